@@ -300,6 +300,8 @@ P_OptionsPassed == ended = "return" => \E o \in OptCompletions : OptionsPassed(l
 P_FetchAtMostOnce == FetchAtMostOnce(log)
 P_SourceOrder == SourceOrder(log)
 P_CompiledFromAccepted == CompiledFromAccepted(log)
+P_BadKeepStatus == BadKeepStatus(log, proc, ended)
+P_BorrowedMeansLent == BorrowedMeansLent(log, proc, ended)
 P_AllOrNothing == ForAllOpts(LAMBDA o : AllOrNothing(log, proc, o, ended))
 P_FreshMeansUntouched == ForAllOpts(LAMBDA o : FreshMeansUntouched(req, log, proc, o, ended))
 P_SearcherOrder == SearcherOrder(log)
